@@ -680,13 +680,16 @@ def antisense_shared_exon_locus(w, gid, chrom, p):
     return [ga, gb, gm, gn], p + 3900
 
 
-def micro_exon_sibling_locus(w, gid, chrom, p, strand, side="after"):
+def micro_exon_sibling_locus(w, gid, chrom, p, strand, side="after", abut=False):
     """Annotated host e1-e2-e5; two unannotated isoforms through e1-e2: X (thin) continues with intron I1, a 10-bp micro-exon and intron
     I2; Y (5x the coverage) continues with intron I1' that shares I1's start and ends 15 bp further (inside I2), i.e. a sibling of I1 in
     the intron graph that overlaps X's next intron.  side="before": the mirror arrangement (micro-exon before the sibling pair)."""
     host = [(0, 300), (1000, 2000), (4200, 4600)]
     x = [(0, 300), (1000, 2000), (2501, 2510), (3201, 3600), (4200, 4600)]
     y = [(0, 300), (1000, 2000), (2516, 2800), (3601, 3900), (4200, 4600)]
+    if abut:
+        # the sibling intron ends exactly one base before X's next intron begins: substituting it would leave an exon of length 0
+        y[2] = (2511, 2800)
     span = 4600
 
     def place(ex):
@@ -962,7 +965,7 @@ def add_zoo(w, parts=ZOO_ALL):
             dense_two_exon_locus(w, "ZDN" + tag, chrom, _free_pos(w, chrom, 3000), "+-"[ci % 2])
             placed.add("dense_two_exon")
         if "micro_exon_sibling" in parts and room(7500):
-            micro_exon_sibling_locus(w, "ZMX" + tag, chrom, _free_pos(w, chrom), "+-"[ci % 2], ("after", "before")[(ci // 2) % 2])
+            micro_exon_sibling_locus(w, "ZMX" + tag, chrom, _free_pos(w, chrom), "+-"[ci % 2], ("after", "before")[(ci // 2) % 2], abut=ci % 3 == 1)
             placed.add("micro_exon_sibling")
         if "mixed_strand_gene" in parts and ci % 2 == 1 and room(7500):
             mixed_strand_gene_locus(w, "ZMG" + tag, chrom, _free_pos(w, chrom))
